@@ -140,6 +140,91 @@ Proof.
       destruct (Hout1 _ H1) as [A C]. destruct (Hout _ H2) as [A2 C2]. rewrite A, A2, C, C2. split; reflexivity.
 Qed.
 
+(* ---------- with whole-request errors: which answer, and which batch ---------- *)
+Lemma run_trace_bfate cfg sc : forall batches,
+  NoDup (map d_id (concat batches)) ->
+  forall b d, In b batches -> In d b ->
+    answers_of (d_id d) (tr_answers (run_trace cfg sc batches))
+    = [fst (bfate (fuel_for cfg sc) (max_retries cfg) sc b 0 0 d)]
+    /\ count_calls (d_id d) (tr_calls (run_trace cfg sc batches))
+       = snd (bfate (fuel_for cfg sc) (max_retries cfg) sc b 0 0 d).
+Proof.
+  induction batches as [|b0 bs IH]; simpl; intros N b d Hb Hd; [contradiction|].
+  rewrite map_app in N. destruct (NoDup_app_parts _ _ N) as [Nb Nbs].
+  destruct (run_trace_once cfg sc bs Nbs) as [_ [_ Hout]].
+  destruct (batch_bfate cfg sc b0 Nb) as [_ [Hin1 Hout1]]. cbn [fresh t_docs t_n t_send] in Hin1, Hout1.
+  cbn [tr_app tr_answers tr_calls]. rewrite answers_of_app, count_calls_app.
+  destruct Hb as [->|Hb].
+  - assert (Hn : ~ In (d_id d) (map d_id (concat bs))) by (eapply NoDup_app_disj; eauto; now apply in_map).
+    destruct (Hout _ Hn) as [A2 C2]. destruct (Hin1 d Hd) as [A C]. rewrite A, A2, C2. split; [reflexivity|lia].
+  - assert (Hdc : In d (concat bs)) by (apply in_concat; exists b; auto).
+    assert (Hn : ~ In (d_id d) (map d_id b0)).
+    { intros H. eapply NoDup_app_disj; eauto. now apply in_map. }
+    destruct (Hout1 _ Hn) as [A2 C2]. destruct (IH Nbs b d Hb Hd) as [A C]. rewrite A, A2, C2, C. split; reflexivity.
+Qed.
+
+Lemma batch_of_acc_app id best a x : batch_of_acc id best (a ++ x) = batch_of_acc id (batch_of_acc id best a) x.
+Proof. revert best; induction a as [|c a IH]; intros best; simpl; auto. Qed.
+
+Lemma batch_of_acc_keep id best calls :
+  (forall c, In c calls -> has_doc id c = true -> (length c <= length best)%nat) -> batch_of_acc id best calls = best.
+Proof.
+  revert best; induction calls as [|c calls IH]; intros best H; simpl; [reflexivity|].
+  destruct (has_doc id c) eqn:E; simpl.
+  - assert (Hl : (length c <= length best)%nat) by (apply H; [now left|assumption]).
+    destruct (length best <? length c)%nat eqn:El; [apply Nat.ltb_lt in El; lia|].
+    apply IH. intros c' Hc'. apply H. now right.
+  - apply IH. intros c' Hc'. apply H. now right.
+Qed.
+
+Lemma count_calls_zero id calls c : count_calls id calls = 0%nat -> In c calls -> has_doc id c = false.
+Proof.
+  unfold count_calls. induction calls as [|x calls IH]; simpl; intros H Hin; [contradiction|].
+  destruct (has_doc id x) eqn:E; simpl in H; [discriminate|]. destruct Hin as [->|Hin]; auto.
+Qed.
+
+Lemma lineage_first_call cfg sc b : b <> [] ->
+  exists rest, tr_calls (lineage (fuel_for cfg sc) cfg sc (fresh b)) = b :: rest.
+Proof.
+  intros Hne. unfold fuel_for. replace (script_len sc + max_retries cfg + 2)%nat with (S (script_len sc + max_retries cfg + 1)) by lia.
+  rewrite lineage_S. cbn [tr_app tr_calls]. unfold call_of. cbn [fresh t_docs]. destruct b; [contradiction|]. eexists; reflexivity.
+Qed.
+
+Lemma batch_of_run cfg sc : forall batches,
+  NoDup (map d_id (concat batches)) ->
+  forall b d, In b batches -> In d b -> batch_of (d_id d) (tr_calls (run_trace cfg sc batches)) = b.
+Proof.
+  unfold batch_of. induction batches as [|b0 bs IH]; simpl; intros N b d Hb Hd; [contradiction|].
+  rewrite map_app in N. destruct (NoDup_app_parts _ _ N) as [Nb Nbs].
+  destruct (run_trace_once cfg sc bs Nbs) as [_ [_ Hout]].
+  destruct (batch_once cfg sc b0 Nb) as [_ [_ Hout1]]. cbn [fresh t_docs] in Hout1.
+  rewrite batch_of_acc_app.
+  assert (Hd0 : In d b0 \/ (In b bs /\ ~ In (d_id d) (map d_id b0))).
+  { destruct Hb as [->|Hb]; [now left|]. destruct (in_dec Z.eq_dec (d_id d) (map d_id b0)) as [Hi|Hi]; [|now right].
+    exfalso. eapply NoDup_app_disj; eauto. apply in_map. apply in_concat. exists b; auto. }
+  destruct Hd0 as [Hd0 | [Hb' Hn0]].
+  - (* d is in the first batch, hence b = b0 *)
+    assert (b = b0).
+    { destruct Hb as [->|Hb]; [reflexivity|]. exfalso.
+      eapply NoDup_app_disj; eauto; [apply in_map; exact Hd0|]. apply in_map. apply in_concat. exists b; auto. }
+    subst b.
+    assert (Hne : b0 <> []) by (intros ->; contradiction).
+    destruct (lineage_first_call cfg sc b0 Hne) as [rest Er]. rewrite Er. cbn [batch_of_acc].
+    rewrite (has_doc_in d b0 Hd0). cbn [length andb].
+    assert (El : (0 <? length b0)%nat = true) by (apply Nat.ltb_lt; destruct b0; [contradiction|simpl; lia]).
+    rewrite El.
+    rewrite (batch_of_acc_keep (d_id d) b0 rest).
+    + apply batch_of_acc_keep. intros c Hc Hh.
+      assert (Hn : ~ In (d_id d) (map d_id (concat bs))) by (eapply NoDup_app_disj; eauto; now apply in_map).
+      destruct (Hout _ Hn) as [_ C]. rewrite (count_calls_zero _ _ c C Hc) in Hh. discriminate.
+    + intros c Hc _.
+      assert (Hin : In c (tr_calls (lineage (fuel_for cfg sc) cfg sc (fresh b0)))) by (rewrite Er; now right).
+      apply lineage_calls_filter in Hin as [_ [p ->]]. cbn [fresh t_docs]. apply filter_length_le'.
+  - rewrite (batch_of_acc_keep (d_id d) [] (tr_calls (lineage (fuel_for cfg sc) cfg sc (fresh b0)))).
+    + apply (IH Nbs b d Hb' Hd).
+    + intros c Hc Hh. destruct (Hout1 _ Hn0) as [_ C]. rewrite (count_calls_zero _ _ c C Hc) in Hh. discriminate.
+Qed.
+
 (* ---------- assembling the decision procedure ---------- *)
 Lemma lookup_map (h : Z -> list tree) ids id :
   In id ids -> lookup_answers id (map (fun i => (i, h i)) ids) = h id.
@@ -296,16 +381,20 @@ Proof.
     destruct (no_whole sc) eqn:Hnw.
     + destruct (run_trace_ok cfg sc Hnw (b_batches s) Nsent) as [_ [Hin _]]. fold sent in Hin.
       destruct (Hin d Hds) as [A _]. rewrite A. cbn [map]. now rewrite (list_eqb_refl tree_eqb tree_eqb_refl).
-    + specialize (Hlen d Hds).
-      destruct (answers_of (d_id d) (tr_answers (run_trace cfg sc (b_batches s)))) as [|a [|a' l]]; simpl in Hlen; try discriminate.
-      reflexivity.
+    + assert (Hds' := Hds). unfold sent in Hds'. apply in_concat in Hds' as [b [Hb Hdb]].
+      destruct (run_trace_bfate cfg sc (b_batches s) Nsent b d Hb Hdb) as [A _].
+      rewrite EC, (batch_of_run cfg sc (b_batches s) Nsent b d Hb Hdb), A. cbn [map].
+      now rewrite (list_eqb_refl tree_eqb tree_eqb_refl).
   - (* clause 6 on pending documents *)
     rewrite (map_as_flat_map (fun d : doc => clause 14 6 [L 1; L (d_id d)]) pend). apply flat_map_ext_in'. intros d0 Hd0. now rewrite (Dpend d0 Hd0).
   - apply flat_map_nil. intros d Hds. rewrite (Dsent d Hds). cbn [andb orb].
-    destruct (no_whole sc) eqn:Hnw; [|reflexivity]. cbn [negb orb].
-    destruct (run_trace_ok cfg sc Hnw (b_batches s) Nsent) as [_ [Hin _]]. fold sent in Hin.
-    destruct (Hin d Hds) as [_ C]. rewrite EC, C, Nat.eqb_refl. reflexivity.
-  - apply flat_map_nil. intros d Hdp. rewrite (Dpend d Hdp). now rewrite orb_true_r.
+    destruct (no_whole sc) eqn:Hnw.
+    + destruct (run_trace_ok cfg sc Hnw (b_batches s) Nsent) as [_ [Hin _]]. fold sent in Hin.
+      destruct (Hin d Hds) as [_ C]. rewrite EC, C, Nat.eqb_refl. reflexivity.
+    + assert (Hds' := Hds). unfold sent in Hds'. apply in_concat in Hds' as [b [Hb Hdb]].
+      destruct (run_trace_bfate cfg sc (b_batches s) Nsent b d Hb Hdb) as [_ C].
+      rewrite EC, (batch_of_run cfg sc (b_batches s) Nsent b d Hb Hdb), C, Nat.eqb_refl. reflexivity.
+  - apply flat_map_nil. intros d Hdp. now rewrite (Dpend d Hdp).
   - match goal with |- (if ?b then _ else _) = _ => assert (Hb : b = true); [|now rewrite Hb] end.
     apply forallb_forall. intros c Hcin.
     destruct (run_calls_shape cfg sc ops clean c Hbs Hcin) as [b [p [Hb [-> [Hne Hlen']]]]]. fold s in Hb.
